@@ -10,6 +10,8 @@ for mf in sorted(glob.glob(f"{V}/seeded/*/meta.json")):
     br = re.sub(r"\s+", " ", str(m.get("breaks", "")))[:260]
     need = re.sub(r"\s+", " ", str(m.get("needs_to_manifest", "")))[:200]
     det = re.sub(r"\s+", " ", str(m.get("detected_by", "")))[:260]
+    if m.get("missed_at_first"):
+        det = "**missed by the check as first built; check strengthened:** " + re.sub(r"\s+", " ", m["missed_at_first"])[:300] + " — now: " + det
     files = m.get("files_changed", "")
     if isinstance(files, list):
         files = ", ".join(map(str, files))
